@@ -3,6 +3,7 @@ package msghub
 import (
 	"container/ring"
 	"context"
+	"fmt"
 
 	"github.com/inbucket/inbucket/v3/pkg/extension"
 	"github.com/inbucket/inbucket/v3/pkg/extension/event"
@@ -77,7 +78,7 @@ func (hub *Hub) Dispatch(msg event.MessageMetadata) {
 		// Relay event to all listeners, removing listeners if they return an error.  This
 		// happens with a zero length history as well.
 		for l := range h.listeners {
-			if err := l.Receive(msg); err != nil {
+			if err := callListener(func() error { return l.Receive(msg) }); err != nil {
 				delete(h.listeners, l)
 			}
 		}
@@ -104,7 +105,7 @@ func (hub *Hub) Delete(mailbox string, id string) {
 
 		// Relay event to all listeners, removing listeners if they return an error.
 		for l := range h.listeners {
-			if err := l.Delete(mailbox, id); err != nil {
+			if err := callListener(func() error { return l.Delete(mailbox, id) }); err != nil {
 				delete(h.listeners, l)
 			}
 		}
@@ -141,6 +142,19 @@ func (hub *Hub) Sync() {
 		close(done)
 	}
 	<-done
+}
+
+// callListener calls into one listener and turns a panic (e.g. a listener that closed its channel
+// while events for it were still queued here) into an error, so that the listener is dropped and
+// the remaining listeners still get the event.
+func callListener(call func() error) (err error) {
+	defer func() {
+		if r := recover(); r != nil {
+			err = fmt.Errorf("listener panicked: %v", r)
+		}
+	}()
+
+	return call()
 }
 
 func (hub *Hub) runOp(op func(*Hub)) {
